@@ -675,7 +675,10 @@ func pathElems(p *pb.Path) []*pb.PathElem {
 
 func (t *Target) gnmiRemove(n *pb.Notification) []*ctree.Leaf {
 	path := joinPrefixAndPath(n.Prefix, n.Delete[0])
-	if len(path) > 1 && path[0] == metadata.Root {
+	if len(path) > 1 && path[0] == metadata.Root && metadata.TargetIntValues[path[1]] == nil {
+		// Deleting a metadata leaf clears the corresponding entry (connectError),
+		// except for the counters the cache maintains itself: a delete from a
+		// target must not falsify the leaf and update counts.
 		t.meta.ResetEntry(path[1])
 	}
 	var leaves []*ctree.Leaf
